@@ -13,6 +13,7 @@ def S(name, src, props, defs=(), std=17, extra=(), models=None, bound=None, tier
     if timeout is None: timeout = {'quick': 1200, 'thorough': 5400}
     if isinstance(timeout, int): timeout = {'quick': timeout, 'thorough': timeout}
     assert not any(s['name'] == name for s in ALL), name
+    for d in (models, bound, qcap, timeout): d.setdefault('dev', d['thorough'])      # tier 'dev': unregistered experiments (./check <id> --tier dev)
     ALL.append(dict(name=name, src=src, props=dict(props), defs=list(defs), std=std, extra=list(extra), models=models, bound=bound,
                     tiers=tuple(tiers), expect=dict(expect or {}), opts=dict(opts or {}), qcap=qcap, timeout=timeout, cflags=list(cflags), xsrc=list(xsrc)))
 
@@ -189,6 +190,16 @@ hs('sized16_le6', 6, 'Set(16)')
 hs('default_exact34', 34, exact=True)
 hs('sized16_exact34', 34, 'Set(16)', exact=True)
 hs('sized4_le6', 6, 'Set(4)')
+DEV = ('dev',)
+def hsh(name, n1, n2, ctor=None, op=None, **kw):
+    S('hs_hist_' + name, 'hashset/hs_hist.cpp', {'assert': 'C18'}, extra=HSX, models=['sc'], bound=100, defs=['VF_N1=%d' % n1, 'VF_N2=%d' % n2] + (['VF_CTOR=' + ctor] if ctor else []) + (['VF_OP=%d' % op] if op is not None else []), **kw)
+for _op, _nm in enumerate(['clear', 'reserve', 'rehash', 'move_ctor', 'move_assign', 'swap']):
+    hsh('default_n20_' + _nm, 20, 1, op=_op, tiers=DEV)
+    hsh('sized16_n5_' + _nm, 5, 1, 'Set(16)', op=_op, tiers=DEV)
+hs('default_le10', 10, tiers=DEV)
+S('hs_dbg_9_10', 'hashset/hs_grow.cpp', {'assert': 'C18'}, extra=HSX, models=['sc'], bound=100, defs=['VF_N=10','VF_NOFIND=1'], tiers=DEV)
+S('hs_default_le6_copy', 'hashset/hs_grow.cpp', {'assert': 'C18'}, extra=HSX, models=['sc'], bound=100, defs=['VF_N=6', 'VF_COPY=1'], tiers=DEV)
+S('hs_default_exact20_copy', 'hashset/hs_grow.cpp', {'assert': 'C18'}, extra=HSX, models=['sc'], bound=100, defs=['VF_N=20', 'VF_EXACT=1', 'VF_COPY=1'], tiers=DEV)
 S('hs_probe_two_full_groups', 'hashset/hs_probe.cpp', {'assert': 'C18'}, extra=HSX, models=['sc'], bound=100, defs=['VF_FULL_GROUPS=2'])
 S('hs_probe_three_full_groups', 'hashset/hs_probe.cpp', {'assert': 'C18'}, extra=HSX, models=['sc'], bound=100, defs=['VF_FULL_GROUPS=3'])
 
@@ -198,6 +209,8 @@ def gcs(name, ts, final, qcap=2, **kw):
     S('gc_' + name, 'gc/gc.cpp', {'assert': 'C10'}, defs=['VF_QCAP=%d' % qcap] + ['VF_T%d=%s' % (i, t) for i, t in enumerate(ts)] + ['VF_FINAL=' + final], **kw)
 S('gc_seq_stop', 'gc/gc_seq.cpp', {'assert': 'C10'}, models=['sc'], bound=8)
 S('gc_seq_retire_during_intake_wrapped', 'gc/gc_seq2.cpp', {'assert': 'C10'}, models=['sc'], bound=8, defs=['VF_PREADVANCE=3'])
+# explicit older epochs (retire(r, epoch)) mixed with ordinary retires: one intake batch with non-ascending epochs
+S('gc_seq_batch_epoch_order', 'gc/gc_seq3.cpp', {'assert': 'C10'}, models=['sc'], bound=8)
 S('gc_seq_retire_during_intake', 'gc/gc_seq2.cpp', {'assert': 'C10'}, models=['sc'], bound=8, defs=['VF_PREADVANCE=0'])
 # stop() issued while a region opened before the retirement is still open
 gcs('stop_with_open_region', ['REGION_OPEN();SIGNAL(0);REGION_CLOSE()', 'AWAIT(0);RETIRE(0);STOP_MARK();JOIN();vf_check(invoked[0]==1, 1)', 'COLLECTOR()'],
@@ -254,6 +267,8 @@ S('rv_ops_k3_prefilled', 'reusable/rv.cpp', {'assert': 'C12'}, defs=['VF_K=2', '
 # ----------------------------------------------------------------------------------------------- C19: counters / thread locals (sequential thread generations)
 S('cnt_generations', 'counter/cnt.cpp', {'assert': 'C19'}, extra=['babylon/concurrent/counter.cpp'], models=['sc'], bound=12)
 S('cnt_churn_inside_destructor', 'counter/churn_seq.cpp', {'assert': 'C19'}, extra=['babylon/concurrent/counter.cpp'], models=['sc'], bound=12)
+# EnumerableThreadLocal instances moved while the thread's one-entry local() cache names one of them
+S('tl_move_cached', 'counter/tl_move.cpp', {'assert': 'C19'}, extra=['babylon/concurrent/counter.cpp'], models=['sc'], bound=12)
 
 # ----------------------------------------------------------------------------------------------- C07: executors
 EXX = ['babylon/executor.cpp', 'babylon/basic_executor.cpp']
@@ -320,7 +335,8 @@ NOT_FINISHING = set(['vec_overlap_grow', 'vec_bs2_same_block', 'pa_batch', 'pa_c
                      'ap_two_writers', 'ap_one_writer', 'ap_empty_entry', 'gc_stop_with_open_region', 'gc_retire_then_stop', 'gc_never_early',
                      'ser_roundtrip_all', 'ser_hostile_len6_all', 'q_nonconc_producer',
                      'ser_nested_len_boundary_field20'])     # field20: engine/protobuf-model execution not reproduced natively (2-byte tags inside a length limit): unconfirmed => not registered
-ALL[:] = [_s for _s in ALL if _s['name'] not in NOT_FINISHING]
+for _s in ALL:
+    if _s['name'] in NOT_FINISHING: _s['tiers'] = ('dev',)
 
 # ----------------------------------------------------------------------------------------------- manifest texts
 LEVEL_TEXT = {
@@ -356,6 +372,10 @@ S('rl_basic', 'vector/rl1.cpp', {'assert': 'C04'}, opts={'clock': 'sec', 'maxsec
 S('rl_wrap', 'vector/rl1.cpp', {'assert': 'C04'}, opts={'clock': 'sec', 'minsec': str((1 << 22) - 512), 'maxsec': str((1 << 22) + 512)})
 S('ht_same_key', 'hashtable/ht1.cpp', {'assert': 'C03'})
 S('ht_find', 'hashtable/ht2.cpp', {'assert': 'C03'})
+# two different keys with the same 7-bit tag and home group race for one slot
+S('ht_two_keys_same_tag', 'hashtable/ht3.cpp', {'assert': 'C03'})
+S('ht_two_keys_same_tag_prefilled', 'hashtable/ht3.cpp', {'assert': 'C03'}, defs=['VF_PREFILL=3'])
+S('ht_two_keys_same_tag_lookup', 'hashtable/ht3.cpp', {'assert': 'C03'}, defs=['VF_LOOKUP=1'])
 S('ht_probe_two_full_groups', 'hashtable/ht_probe.cpp', {'assert': 'C03'}, models=['sc'], bound=100, defs=['VF_FULL_GROUPS=2'])
 S('ht_probe_three_full_groups', 'hashtable/ht_probe.cpp', {'assert': 'C03'}, models=['sc'], bound=100, defs=['VF_FULL_GROUPS=3'], tiers=TH)
 # ----------------------------------------------------------------------------------------------- C20: logging
